@@ -24,6 +24,12 @@ func (e *executor[R]) PreExecute(exec policy.ExecutionInternal[R]) *common.Polic
 				ExecutionAttempt: exec.CopyWithResult(nil),
 			})
 		}
+		if !errors.Is(err, ErrFull) {
+			// The wait ended because the execution was canceled: report what it was canceled with
+			if canceled, cancelResult := exec.IsCanceledWithResult(); canceled {
+				return cancelResult
+			}
+		}
 		return internal.FailureResult[R](err)
 	}
 	return nil
